@@ -274,6 +274,20 @@ package interceptor
 //@   ensures b != nil ==> b.lastMatched == result1 && b.lastChanged == result2
 //@   ensures result3 == nil ==> result0 != nil || b == nil
 //@   assigns *, b.lastMatched, b.lastChanged
+// C17 / C13 (seed C17-11): a batch list is translated element by element and the FIRST element that cannot be
+// decoded / repaired ends the call with that error - a nil error means no element failed (not "the last one did not").
+//@ ghost common.DataBlob.lastFailed bool
+//@ extern translateOneDataBlob@translateDataBlobs(logger, match, visitor, b)
+//@   trusted frame: builds a new blob; writes neither the caller's slice nor another blob (its own contract is verified separately)
+//@   ensures b != nil ==> b.lastMatched == result1 && b.lastChanged == result2 && b.lastFailed == (result3 != nil)
+//@   ensures b == nil ==> result3 == nil && !result1 && !result2
+//@   assigns b.lastMatched, b.lastChanged, b.lastFailed
+//@ contract translateDataBlobs
+//@   props C17 C13
+//@   ensures @every_failure_reported: result3 == nil ==> (forall k int :: { old(blobs[k]) } 0 <= k && k < len(blobs) && old(blobs[k]) != nil ==> !old(blobs[k]).lastFailed)
+//@   ensures @same_list: len(result0) == len(blobs)
+//@   loop 1 invariant forall k int :: { old(blobs[k]) } 0 <= k && k < $i && old(blobs[k]) != nil ==> !old(blobs[k]).lastFailed
+//@   loop 1 invariant forall k int :: { blobs[k] } $i <= k && k < len(blobs) ==> blobs[k] == old(blobs[k])
 //@ contract visitDataBlobs
 //@   shape sig=(logger log.Logger,vwp visit.ValueWithParent,match stringMatcher,visitor visitor)( bool, error);loops=;lits=0;fv=
 //@   props C17 C13
